@@ -27,15 +27,14 @@ func checkC03(cx *Ctx, r *Report) {
 	reqID := "ext:iface:models.AuthRequestInt.GetAuthRequestID#0"
 	aud := "ext:iface:provider.IDPStorage.GetEntityIDByAppID#0"
 	relay := "ext:iface:models.AuthRequestInt.GetRelayState#0"
-	setter := func(m, p string) string { return "param:provider.(*Attributes)." + m + "/" + p }
+	setterIdx := map[string]int{"value": 1, "name": 1, "friendlyName": 2, "nameFormat": 3, "attributeValue": 4}
+	setter := func(m, p string) string { return fmt.Sprintf("param:provider.(*Attributes).%s/#%d", m, setterIdx[p]) }
 	stdValues := []string{setter("SetEmail", "value"), setter("SetFullName", "value"), setter("SetGivenName", "value"), setter("SetSurname", "value"), setter("SetUserID", "value"), setter("SetUsername", "value"), setter("SetCustomAttribute", "attributeValue")}
 	cx.checkFieldSinks(r, "R-VFG", "callback", vf, []fieldSink{
 		{"samlp.ResponseType", "InResponseTo", []string{reqID}, []string{reqID}, true, ""},
 		{"saml.SubjectConfirmationDataType", "InResponseTo", []string{reqID}, []string{reqID}, true, ""},
 		{"samlp.ResponseType", "Destination", []string{cbURL}, []string{cbURL}, true, ""},
 		{"saml.SubjectConfirmationDataType", "Recipient", []string{cbURL}, []string{cbURL}, true, ""},
-		{"saml.NameIDType", "Text", entityIDSources, []string{"ext:iface:context.Context.Value#0"}, false, "provider.getIssuer"},
-		{"saml.NameIDType", "Text", []string{setter("SetUsername", "value")}, []string{setter("SetUsername", "value")}, true, "provider.(*Attributes).GetNameID"},
 		{"saml.AudienceRestrictionType", "Audience", []string{aud}, []string{aud}, true, ""},
 		{"saml.AttributeType", "AttributeValue", stdValues, stdValues, true, ""},
 		{"saml.AttributeType", "Name", []string{"const:Email", "const:SurName", "const:FirstName", "const:FullName", "const:UserName", "const:UserID", setter("SetCustomAttribute", "name")}, []string{setter("SetCustomAttribute", "name")}, true, ""},
@@ -45,10 +44,24 @@ func checkC03(cx *Ctx, r *Report) {
 		{"provider.Response", "RelayState", []string{relay}, []string{relay}, true, ""},
 		{"provider.Response", "RequestID", []string{reqID}, []string{reqID}, true, ""},
 		{"provider.Response", "Audience", []string{aud}, []string{aud}, true, ""},
-		{"saml.AssertionType", "Issuer", []string{"alloc:provider.getIssuer/*"}, []string{"alloc:provider.getIssuer/*"}, false, ""},
-		{"samlp.ResponseType", "Issuer", []string{"alloc:provider.getIssuer/*"}, []string{"alloc:provider.getIssuer/*"}, false, ""},
-		{"saml.SubjectType", "NameID", []string{"alloc:provider.(*Attributes).GetNameID/*"}, []string{"alloc:provider.(*Attributes).GetNameID/*"}, false, ""},
 	})
+	// the text of the objects stored as Issuer / subject NameID
+	for _, n := range []struct {
+		owner, field string
+		allow, req   []string
+		unchanged    bool
+	}{
+		{"samlp.ResponseType", "Issuer", entityIDSources, []string{"ext:iface:context.Context.Value#0"}, false},
+		{"saml.AssertionType", "Issuer", entityIDSources, []string{"ext:iface:context.Context.Value#0"}, false},
+		{"saml.SubjectType", "NameID", []string{setter("SetUsername", "value")}, []string{setter("SetUsername", "value")}, true},
+	} {
+		ls, nSites := vf.NestedFieldSources(n.owner, n.field, "saml.NameIDType", "Text")
+		if nSites == 0 {
+			r.Fail("R-VFG", "callback:"+n.owner+"."+n.field+".Text", "", "the "+n.field+" of "+n.owner+" is not filled")
+			continue
+		}
+		r.checkSources("R-VFG", "callback:"+n.owner+"."+n.field+".Text", "", ls, n.allow, n.req, n.unchanged)
+	}
 	// the attribute list of the assertion is GetSAML() of the object storage filled
 	lsA, sA := vf.FieldStoreSources("saml.AttributeStatementType", "Attribute")
 	if len(sA) == 0 {
@@ -56,7 +69,7 @@ func checkC03(cx *Ctx, r *Report) {
 	} else {
 		bad := ""
 		for _, l := range vf.Deep(lsA).leaves() {
-			if !strings.HasPrefix(l, "alloc:provider.(*Attributes).GetSAML/") && l != "const:zero" {
+			if !strings.HasPrefix(l, "alloc:{saml.AttributeType}") && l != "const:zero" {
 				bad = l
 			}
 		}
@@ -74,8 +87,8 @@ func checkC03(cx *Ctx, r *Report) {
 		{"GetEntityIDByAppID:appID", matchStorage("GetEntityIDByAppID"), 1, []string{appID}},
 		{"SetUserinfoWithUserID:appID", matchStorage("SetUserinfoWithUserID"), 1, []string{appID}},
 		{"SetUserinfoWithUserID:userID", matchStorage("SetUserinfoWithUserID"), 3, []string{"ext:iface:models.AuthRequestInt.GetUserID#0"}},
-		{"SetUserinfoWithUserID:setter", matchStorage("SetUserinfoWithUserID"), 2, []string{"alloc:provider.(*IdentityProvider).loginResponse/*"}},
-		{"makeSuccessfulResponse:attributes", matchFnKey(w, "provider.(*Response).makeSuccessfulResponse"), 1, []string{"alloc:provider.(*IdentityProvider).loginResponse/*"}},
+		{"SetUserinfoWithUserID:setter", matchStorage("SetUserinfoWithUserID"), 2, []string{"alloc:{provider.Attributes}*"}},
+		{"makeSuccessfulResponse:attributes", matchFnKey(w, "provider.(*Response).makeSuccessfulResponse"), 1, []string{"alloc:{provider.Attributes}*"}},
 		{"BuildRedirectQuery:relayState", matchFnKey(w, "provider.BuildRedirectQuery"), 1, []string{relay}},
 		{"createRedirectSignature:relayState", matchFnKey(w, "provider.createRedirectSignature"), 4, []string{relay}},
 	} {
@@ -107,8 +120,8 @@ func checkC03(cx *Ctx, r *Report) {
 
 	// --- validity window ---------------------------------------------------------------------------------
 	now := "ext:time.Now#0"
-	tf := "param:provider.(*IdentityProvider).callbackHandleFunc/p.TimeFormat"
-	exp := "param:provider.(*IdentityProvider).callbackHandleFunc/p.Expiration"
+	tf := "param:provider.(*IdentityProvider).callbackHandleFunc/#0.TimeFormat"
+	exp := "param:provider.(*IdentityProvider).callbackHandleFunc/#0.Expiration"
 	type tsink struct {
 		owner, field string
 		add          bool
@@ -199,7 +212,7 @@ func (cx *Ctx) checkGetSAML(r *Report) {
 				case a.Op == "TRUE" && (strings.HasPrefix(a.A, "next@") || strings.Contains(a.A, "#0")):
 				case a.Op == "LT" && strings.HasPrefix(a.B, "len("):
 				default:
-					own = append(own, a.String())
+					own = append(own, strings.Replace(a.String(), a.A, a.TA, 1))
 				}
 			}
 			if inLoop {
@@ -211,7 +224,7 @@ func (cx *Ctx) checkGetSAML(r *Report) {
 				continue
 			}
 			nStd++
-			okStd := len(own) == 1 && strings.HasPrefix(own[0], "!EMPTY(GetSAML/a.")
+			okStd := len(own) == 1 && strings.HasPrefix(own[0], "!EMPTY(<provider.Attributes>.")
 			r.Check(okStd, "R-GUARD", "GetSAML:std-append@"+w.InstrPos(call), w.InstrPos(call), "appended exactly when its value is set ("+strings.Join(own, " & ")+")", "a standard attribute is appended under "+strings.Join(own, " & ")+" instead of exactly 'its value is non-empty'")
 		}
 	}
